@@ -5,9 +5,12 @@ import json, os, subprocess, sys, tempfile, xml.etree.ElementTree as ET
 base = json.load(open("/root/.vp/BASELINE.json"))
 fd, xml = tempfile.mkstemp(suffix=".xml", dir="/var/tmp"); os.close(fd)
 env = dict(os.environ); env.pop("TORNADO_VERIF", None)
+cwd = "/repo"
+if len(sys.argv) > 2 and sys.argv[1] == "--cwd":
+    cwd = sys.argv[2]; del sys.argv[1:3]
 cmd = ["/venv/bin/python", "-m", "pytest", "-ra", "-q", "-p", "no:cacheprovider", "--timeout=900",
        "--continue-on-collection-errors", "--junitxml=" + xml] + sys.argv[1:]
-p = subprocess.run(cmd, cwd="/repo", env=env, stdout=subprocess.PIPE, stderr=subprocess.STDOUT, text=True)
+p = subprocess.run(cmd, cwd=cwd, env=env, stdout=subprocess.PIPE, stderr=subprocess.STDOUT, text=True)
 print(p.stdout[-1500:])
 passed = set()
 for tc in ET.parse(xml).getroot().iter("testcase"):
